@@ -206,6 +206,22 @@ func (d *SimDir) Persist(kind string, id uint64, w index.WriterTo, closeCh chan 
 		d.Rec.Add(&Event{Kind: "persist-err", Item: kind, ID: id, Err: f.Err.Error(), Note: "before"})
 		return f.Err
 	}
+	// the real directory opens the file with an exclusive non-blocking flock: it fails while a
+	// handle (shared lock) on that name is open
+	if d.PinOpen {
+		d.mu.Lock()
+		busy := false
+		for _, name := range d.Open {
+			if name == key(kind, id) {
+				busy = true
+			}
+		}
+		d.mu.Unlock()
+		if busy {
+			d.Rec.Add(&Event{Kind: "persist-err", Item: kind, ID: id, Err: "resource temporarily unavailable", Note: "in use"})
+			return fmt.Errorf("resource temporarily unavailable")
+		}
+	}
 	var buf bytes.Buffer
 	_, err := w.WriteTo(&buf, closeCh)
 	if err != nil {
